@@ -178,6 +178,17 @@ def r6(ctx):
         gv = fv.cfg
         rets = gv.stmts(ast.Return)
         okk = bool(rets) and all(r.ast.value is not None and (isinstance(r.ast.value, ast.Name) or "int(" in norm(r.ast.value) or "pw_uid" in norm(r.ast.value) or "gr_gid" in norm(r.ast.value) or "geteuid" in norm(r.ast.value) or "getegid" in norm(r.ast.value)) for r in rets)
+        for r in rets:
+            if isinstance(r.ast.value, ast.Name):
+                nm2 = r.ast.value.id
+
+                def isint(e, nm2=nm2):
+                    if isinstance(e, ast.Call) and isinstance(e.func, ast.Name) and e.func.id == "isinstance" and norm(e.args[0]) == nm2 and norm(e.args[1]) == "int":
+                        return -1
+                    return None
+                p, hits = guard_check(fv, [r], isint)
+                if p is not None:
+                    okk = False
         fall = [a for a, l in gv.exit.inn if not (a.kind == "stmt" and isinstance(a.ast, ast.Return))]
         ctx.check("C20.R6", okk and not fall, key(fv, "returns-id"), site(fv), "%s can return something that is not a numeric id (or fall off the end)" % nm, "int id on every path")
     fc = repo.cls("gunicorn.config.Config")
